@@ -124,7 +124,7 @@ def r1_index_discipline(R) -> None:
                         f'read at `{text(idx)}` outside the offset copy: `{text(node)}`', where=f'{fi.module.relpath}:{node.lineno}')
                 continue
             R.violation(q, f'load-index:{text(node)}', f'series read `{text(node)}` addresses `{text(idx)}`, not the period being solved',
-                        where=f'{fi.module.relpath}:{node.lineno}')
+                        where=f'{fi.module.relpath}:{node.lineno}', mismatch=True)
     R.expect('solvers', sites, 25, 'series element stores/loads in the solver functions')
     # Fortran wrappers: the whole-matrix store self.values = <engine result>
     for q, sub in (('fsic.fortran.FortranEngine.solve_t', 'solve_t'), ('fsic.fortran.FortranEngine.solve', 'solve'),
@@ -279,9 +279,10 @@ def r2_rejection_effect_free(R) -> None:
                 what_ = stmt_key(en.ast)
                 a_ = en.ast
                 if isinstance(a_, ast.Assign) and len(a_.targets) == 1 and isinstance(a_.targets[0], ast.Subscript) and isinstance(a_.value, ast.Subscript) \
-                        and text(a_.targets[0].value) == text(a_.value.value) and text(a_.targets[0].slice) == 't' \
-                        and offset_source_index(FnView(R.repo, q, cfg), en.id, a_.value.slice):
-                    what_ = 'offset-copy'  # series[t] = series[t + offset], however the series is named
+                        and text(a_.targets[0].value) == text(a_.value.value) and text(a_.targets[0].slice) == 't':
+                    # series[t] = series[<source period>], however the series is named and the source position is worked out
+                    # (that it is t + offset is the business of C04.R1): the copy made for `offset`
+                    what_ = 'offset-copy'
                 R.violation(q, f'effect-before-reject:{cls}<-{what_}',
                             f'the up-front rejection `{cls}` at L{r.lineno} can be raised after `{en.label()}` has already changed the model',
                             where=f'{fi.module.relpath}:{en.lineno}', path=cfg.describe_path(p) if p else None)
